@@ -138,6 +138,9 @@ def main():
             sh(["git", "-C", "/repo", "checkout", "--", "."])
             shutil.rmtree("/tmp/seedchk/out_" + name, ignore_errors=True)
         meta["what_we_ran"] = ["git -C /repo apply patch.diff"] + ran + ["git -C /repo checkout -- ."]
+    if any(r["exit"] not in (0, 1, 3) for r in ran):
+        print("%s %-28s EVAL-ERROR: a check exited %s (harness did not build?) -- not recorded" % (prop, name, [r["exit"] for r in ran]))
+        return 2
     meta["detected"] = any(r["exit"] == 1 for r in ran)
     meta["detected_by"] = next((r["cmd"] for r in ran if r["exit"] == 1), None)
     sigs = [l.split()[0][4:] for r in ran for l in r["lines"] if l.startswith("  sig=")]
